@@ -412,6 +412,15 @@ pub struct EvExp {
 pub struct FExp {
     pub name: &'static str,
     pub ok: Vec<FV>,
+    /// 0 = not applicable; a parameter of a primitive / String type whose type is written
+    /// plainly (1) or as a qualified path (2): both spellings must be recorded the same way
+    pub spelled: u8,
+}
+impl FExp {
+    pub fn spelled(mut self, how: u8) -> FExp {
+        self.spelled = how;
+        self
+    }
 }
 pub struct Exp {
     pub fields: Vec<FExp>,
@@ -443,28 +452,28 @@ pub fn f_int(name: &'static str, v: i64) -> FExp {
     if v >= 0 {
         ok.push(FV::U64(v as u64));
     }
-    FExp { name, ok }
+    FExp { name, ok, spelled: 0 }
 }
 pub fn f_bool(name: &'static str, v: bool) -> FExp {
-    FExp { name, ok: vec![FV::Bool(v), FV::Dbg(v.to_string())] }
+    FExp { name, ok: vec![FV::Bool(v), FV::Dbg(v.to_string())], spelled: 0 }
 }
 pub fn f_str(name: &'static str, v: &str) -> FExp {
-    FExp { name, ok: vec![FV::Str(v.to_string()), FV::Dbg(format!("{v:?}"))] }
+    FExp { name, ok: vec![FV::Str(v.to_string()), FV::Dbg(format!("{v:?}"))], spelled: 0 }
 }
 pub fn f_dbg(name: &'static str, v: String) -> FExp {
-    FExp { name, ok: vec![FV::Dbg(v)] }
+    FExp { name, ok: vec![FV::Dbg(v)], spelled: 0 }
 }
 pub fn f_any(name: &'static str) -> FExp {
-    FExp { name, ok: vec![] }
+    FExp { name, ok: vec![], spelled: 0 }
 }
 /// either expectation is fine (empty = anything)
 pub fn f_or(a: FExp, b: FExp) -> FExp {
     if a.ok.is_empty() || b.ok.is_empty() {
-        return FExp { name: a.name, ok: vec![] };
+        return FExp { name: a.name, ok: vec![], spelled: 0 };
     }
     let mut ok = a.ok;
     ok.extend(b.ok);
-    FExp { name: a.name, ok }
+    FExp { name: a.name, ok, spelled: 0 }
 }
 
 // ---------------------------------------------------------------------------------------------
